@@ -17,6 +17,12 @@ NOTES = {
  "C19": "missed by C19 at first; an overflow workload with subscribers joining and leaving was added",
  "C03-2": "not caught by C03 itself: the change only manifests when a compaction delete fails (a storage fault), which C03's quantifier (histories, inputs) does not contain; C07's fault enumeration catches it",
  "C07-2": "missed by C07 at first; a third kind of execution was added at every index-record removal: a client re-creates the key right before the removal (placed through the storage wrapper)",
+ "C08-2": "not caught by C08 itself: the change only manifests while an unknown-outcome write is pending in the retry queue (a storage fault), which C08's quantifier (histories, inputs) does not contain; C09 catches it",
+ "C14-2": "missed by C14 at first (the compare/write overlap needs goroutines inside the commit at the same instant); C14's concurrent cases now run 25-50 rounds with a per-round barrier, and C11 got concurrent conditional-writer cases (put-if-absent / CAS-increment atomicity)",
+ "C15-2": "caught by the real-campaign cases of C15 (added in the same round: restart of a node through server.NewServer's real Campaign and on-elected callback, requests over gRPC, a metrics sink that is slow inside the callback)",
+ "C17-2": "missed by C17 at first (no storage faults in its histories); a one-shot storage error on the expiry's removal of an event's index record was added; C07 catches the general form",
+ "C18-2": "missed by C18 at first; a third two-node mode was added in which five readers holding different fetched revisions are held right before SetCurrentRevision and released through a spin barrier at the same instant (150 rounds per case); all such cases catch it",
+ "C20-2": "missed by C20 at first (requests were sent one at a time); every case now starts with a burst of 8 concurrent first requests, which in the first case of a worker process are concurrent first-ever emissions of their metrics",
  "C12-2": "missed by C12 at first (single-partition engines only); a TiKV mock pre-split into regions and a multi-partition memkv were added to the lock-step engine list",
 }
 for d in sorted(glob.glob('/verif/seeded/C*')):
